@@ -64,13 +64,22 @@ def check_group(ex, key, recs, rnd, rep, stats):
         # three columns: the TLC sequence, a shifted copy and a scaled copy (columns are independent)
         cols = np.stack([seq, seq * 0.5 + 1.0, -3.0 * seq], axis=1)
         hcol = np.stack([steps] * 3, axis=1)
+        cols0, seq0 = cols.copy(), seq.copy()
         try:
             new, err, hh = obj(cols, hcol)
             single, err1, _ = obj(seq[:, None], steps[:, None])
+            again, _, _ = obj(cols, hcol)                 # the same arrays a second time (and below: their columns, as views)
+            colv, _, _ = obj(cols[:, 1], hcol[:, 1])
         except Exception as ex_:
             rep.violation('call-raises:' + name, dict(case=name), '%s: __call__ raised %r' % (name, ex_))
             continue
         stats['calls'] += 1
+        if not (np.array_equal(cols, cols0) and np.array_equal(seq, seq0)):
+            rep.violation('inputs-modified:' + name, dict(case=name), '%s: __call__ changed the sequence array it was given' % name)
+            continue
+        if not (np.array_equal(again, new, equal_nan=True) and np.shape(colv) == (np.shape(new)[0],) and np.array_equal(np.asarray(colv), new[:, 1], equal_nan=True)):
+            rep.violation('repeatable:' + name, dict(case=name), '%s: extrapolating the same array again (or one of its columns as a view) gives different numbers' % name)
+            continue
         if new.shape != (len(out), 3) or hh.shape != new.shape:
             rep.violation('count:' + name, dict(case=name, got=list(new.shape), want=[len(out), 3]), '%s: %d outputs per column, specification %d (= len - terms used)' % (name, new.shape[0], len(out)))
             continue
@@ -82,8 +91,8 @@ def check_group(ex, key, recs, rnd, rep, stats):
         if not (np.array_equal(new[:, 0], single[:, 0]) and np.allclose(new[:, 1], out * 0.5 + 1.0, rtol=0, atol=4 * tol) and np.allclose(new[:, 2], -3.0 * out, rtol=0, atol=12 * tol)):
             rep.violation('columns:' + name, dict(case=name), '%s: a column of a 2-d sequence is not treated independently of the others' % name)
             continue
-        if not ((np.asarray(err) >= 0).all() and (np.asarray(err1) >= 0).all()):
-            rep.violation('abserr-negative:' + name, dict(case=name, err=np.asarray(err).tolist()), '%s: negative error estimate' % name)
+        if not (np.isrealobj(err) and np.isrealobj(err1) and (np.asarray(err) >= 0).all() and (np.asarray(err1) >= 0).all()):
+            rep.violation('abserr-negative:' + name, dict(case=name, err=[complex(t) for t in np.ravel(err)]), '%s: error estimate is not a non-negative real number: %s' % (name, np.ravel(err)[:3].tolist()))
 
 
 def random_ratio_cases(ex, tier, seed, rep, stats):
@@ -177,8 +186,8 @@ def random_ratio_cases(ex, tier, seed, rep, stats):
         tol2 = 64 * EPS * kappa * (abs(L) + sum(abs(x) for x in a) + 1)
         if np.abs(new[:, 0] - L).max() > tol2:
             rep.violation('value:random', dict(case=name, got=[complex(z) for z in new[:, 0]], L=L), '%s: sequence with only modelled terms is mapped to %s, not to L = %r' % (name, new[:, 0].tolist(), L))
-        if not (np.asarray(err) >= 0).all():
-            rep.violation('abserr-negative:random', dict(case=name), '%s: negative error estimate' % name)
+        if not (np.isrealobj(err) and (np.asarray(err) >= 0).all()):
+            rep.violation('abserr-negative:random', dict(case=name), '%s: error estimate is not a non-negative real number: %s' % (name, np.ravel(err)[:3].tolist()))
         # the same sequence as a plain 1-d array (one column alone) must give that column
         try:
             keep_new, keep_err = np.array(new, copy=True), np.array(err, copy=True)
